@@ -11,6 +11,22 @@ from . import soocommon as SC
 from . import seqcommon as QC
 
 
+def stro_cfgs(tier, base_id):
+    import random
+    from .. import common as C
+    from .. import algos as A
+    from . import partcommon as PC
+    rnd = random.Random(C.seed() + 211)
+    out = []
+    for i in range(12 if tier == "quick" else 80):
+        kind, Kk = rnd.choice(A.PART_KINDS)
+        D = rnd.choice([1, 1, 2]) if kind != "dbin" else 1
+        n = rnd.choice([100, 300, 600, 1000]) if tier == "quick" else rnd.choice([100, 300, 1000, 2000, 3000])
+        out.append({"id": base_id + i, "algo": "StroquOOL", "kind": kind, "K": Kk, "D": D, "box": rnd.choice([b for b in PC.BOXES if len(b) == D]), "n": n, "T": n if i % 4 else n // 2, "prm": {},
+                    "pattern": rnd.choice(["g01", "peak", "tied", "gneg"]), "shift": rnd.choice([0, 0, -1]), "seed": rnd.randrange(1 << 30)})
+    return out
+
+
 def extra(chk):
     tier = chk.tier
     trs = S.pmap(W.run_wrap, WC.gpo_cfgs(tier, 1300000)[: (12 if tier == "quick" else 80)] + WC.poo_cfgs(tier, 1310000)[: (12 if tier == "quick" else 80)])
@@ -21,6 +37,8 @@ def extra(chk):
     chk.validate("Trace_SOO.tla", "Trace_SOO.cfg", trs, "soo", own=own, nontrivial=SC.nontrivial)
     trs = [t for t in S.pmap(SS.run_soo, QC.random_cfgs(tier, 1330000)[:k]) if "skipped" not in t]
     chk.validate("Trace_Seq.tla", "Trace_Seq.cfg", trs, "seq", own=own, nontrivial=lambda t: len(t["ev"]) > 20)
+    trs = [t for t in S.pmap(SS.run_soo, stro_cfgs(tier, 1340000)) if "skipped" not in t]
+    chk.validate("Trace_Stro.tla", "Trace_Stro.cfg", trs, "stro", own=own, chunk=20, nontrivial=lambda t: any(e["k"] == "pull" and any(x[2] == 0 and x[1] > 0 for x in e.get("fc", [])) for e in t["ev"]))
     from . import c11, c13
     trs = S.pmap(Z.run_zoom, c11.cfgs(tier)[: (12 if tier == "quick" else 100)])
     chk.validate("Trace_Zoom.tla", "Trace_Zoom.cfg", trs, "zoom", own=["zoom.stats", "zoom.foreign-stats"], nontrivial=lambda t: t["arms"] >= 3)
@@ -31,7 +49,7 @@ def extra(chk):
 def run(tier):
     return TC.full_check(
         "C04", tier, own=["credit.", "stats."],
-        rule="MC: TreeBandit model with the history variable (evidence of every cell = fold of the history, counts sum to rounds); replay; TV: grid-mode sessions of T_HOO/HCT/VHCT with the all-differences recorder (after every round exactly the credited cells change by (+1, +r, +r^2)); POO/GPO/PCT/VPCT sessions observed through the recording learner class; SOO/StoSOO/DOO, SequOOL, Zooming and VROOM sessions validated by their trace specifications (credit clauses).  Non-trivial = accepted trace with >= 1 expansion and >= 2 distinct pulled cells (wrappers: >= 2 learners).",
+        rule="MC: TreeBandit model with the history variable (evidence of every cell = fold of the history, counts sum to rounds); replay; TV: grid-mode sessions of T_HOO/HCT/VHCT with the all-differences recorder (after every round exactly the credited cells change by (+1, +r, +r^2)); POO/GPO/PCT/VPCT sessions observed through the recording learner class; SOO/StoSOO/DOO, SequOOL, StroquOOL, Zooming and VROOM sessions validated by their trace specifications (credit clauses).  Non-trivial = accepted trace with >= 1 expansion and >= 2 distinct pulled cells (wrappers: >= 2 learners).",
         explanation="Credit set: path to the pulled cell (T-HOO), the pulled cell (HCT/VHCT), the serving learner or the validation score (POO/GPO), the cell handed out (SOO/DOO/StoSOO/SequOOL), the played arm (Zooming), the drawn cell and the descendants on the sampling path (VROOM).  Reward-list length = count, logged mean / variance equal the exact statistics of the credited rewards, no other cell's evidence changes, counts total the completed rounds.",
         extra=extra,
     )
